@@ -39,7 +39,7 @@ HasEdge(e) == \E i \in DOMAIN e.w : \E k \in DOMAIN Wof(e)[i] : Verdict(e, i, k)
 Weff(e, live) == LET W == Wof(e) IN [i \in DOMAIN W |-> [k \in {x \in DOMAIN W[i] \cap live : Verdict(e, i, x) # "no"} |-> W[i][k]]]
 
 TraceInit == /\ st = [epoch |-> << >>, tracks |-> << >>, aw |-> [period |-> 100, counter |-> 100]]
-             /\ l = 2 /\ TLCSet(1, 2)
+             /\ l = 2 /\ TLCSet(1, 2) /\ TLCSet(2, [epoch |-> << >>, tracks |-> << >>, aw |-> [period |-> 100, counter |-> 100]])
 Ev(name) == l <= Len(Rec) /\ Rec[l].ev = name /\ l' = l + 1
 Places(s2, e) == In(s2, "main") = SetOf(e.main) /\ In(s2, "coll") = SetOf(e.coll)   \* physical stores agree
 
@@ -58,7 +58,7 @@ PredictOK(pro, e, ep) ==
 TPredict == /\ Ev("predict")
             /\ LET e == Rec[l]  pro == Prologue(st)  ep == Ep(pro, e.scene) + 1
                    s2 == Predict(st, e.scene, e.cids, Wof(e), e.ids) IN
-               /\ PredictOK(pro, e, ep)
+               /\ PredictOK(pro, e, ep) /\ e.echo = 1
                /\ \A i \in DOMAIN e.ids : e.eps[i] = ep /\ e.lens[i] = s2.tracks[e.ids[i]].len
                /\ Places(s2, e)
                /\ st' = s2
@@ -70,7 +70,32 @@ TSetAw   == Ev("setaw") /\ st' = SetAw(st, Rec[l].p)
 TStats   == Ev("stats") /\ Rec[l].active = Cardinality(In(st, "main")) /\ Rec[l].wasted = Cardinality(In(st, "coll")) /\ UNCHANGED st
 TraceNext == TPredict \/ TSkip \/ TWasted \/ TIdle \/ TClear \/ TSetAw \/ TStats
 TraceSpec == TraceInit /\ [][TraceNext]_<<st, l>>
-Progress == TLCSet(1, IF l > TLCGet(1) THEN l ELSE TLCGet(1))
+Progress == IF l > TLCGet(1) THEN TLCSet(1, l) /\ TLCSet(2, st) ELSE TRUE
+(* ---- diagnosis of a rejected line: which conjuncts fail in the state reached before it ---- *)
+WhyPredict(s0, e) ==
+  LET pro == Prologue(s0)  ep == Ep(pro, e.scene) + 1  a == e.ids  n == Len(a)
+      live == Live(pro, e.scene, ep)  W == Weff(e, live)
+      cont == {i \in 1..n : a[i] \in Ids(pro)}
+      s2 == Predict(s0, e.scene, e.cids, Wof(e), e.ids) IN
+  (IF Len(a) = Len(e.cids) /\ Len(e.w) = n THEN {} ELSE {"count"})
+  \cup (IF \A i, j \in 1..n : i # j => a[i] # a[j] THEN {} ELSE {"distinct"})
+  \cup (IF \A i \in cont : pro.tracks[a[i]].scene = e.scene THEN {} ELSE {"foreign-scene"})
+  \cup (IF \A i \in cont : pro.tracks[a[i]].scene # e.scene \/ (pro.tracks[a[i]].place = "main" /\ ep - pro.tracks[a[i]].last <= MaxIdle) THEN {} ELSE {"expired"})
+  \cup (IF \A i \in cont : a[i] \in DOMAIN Wof(e)[i] /\ Wof(e)[i][a[i]] >= Thr THEN {} ELSE {"gate"})
+  \cup (IF \A i \in cont : Verdict(e, i, a[i]) # "no" THEN {} ELSE {"constraint"})
+  \cup (IF n # Len(e.w) \/ HasEdge(e) \/ ValueOf(W, n, a) + Margin >= BestValue(W, n, live) THEN {} ELSE {"optimal"})
+  \cup (IF \A i \in 1..n : a[i] \notin Ids(pro) => a[i] \notin Ids(s0) THEN {} ELSE {"fresh"})
+  \cup (IF e.echo = 1 THEN {} ELSE {"echo"})
+  \cup (IF \A i \in DOMAIN e.ids : e.eps[i] = ep THEN {} ELSE {"epoch"})
+  \cup (IF (\A i, j \in 1..n : i # j => a[i] # a[j]) /\ (\A i \in DOMAIN e.ids : e.lens[i] = s2.tracks[e.ids[i]].len) THEN {} ELSE {"len"})
+  \cup (IF (\A i, j \in 1..n : i # j => a[i] # a[j]) /\ Places(s2, e) THEN {} ELSE {"places"})
+Why(s0, e) ==
+  CASE e.ev = "predict" -> WhyPredict(s0, e)
+    [] e.ev = "idle" -> {"idle"}
+    [] e.ev = "wasted" -> {"wasted"}
+    [] e.ev = "stats" -> {"stats"}
+    [] e.ev = "skip" -> {"places"}
+    [] OTHER -> {"event"}
 Accepted == IF TLCGet(1) = Len(Rec) + 1 THEN TRUE
-            ELSE PrintT(<<"REJECTED at line", TLCGet(1), Rec[TLCGet(1)]>>) /\ FALSE
+            ELSE PrintT("REJECTED at line " \o ToString(<<TLCGet(1), "why", Why(TLCGet(2), Rec[TLCGet(1)]), Rec[TLCGet(1)]>>)) /\ FALSE
 =============================================================================
